@@ -5,7 +5,7 @@ B = 'include/jsoncons/basic_json.hpp'
 SIGNED = {'int8_t': ('INT8_MIN', 'INT8_MAX'), 'int16_t': ('INT16_MIN', 'INT16_MAX'), 'int32_t': ('INT32_MIN', 'INT32_MAX'), 'int64_t': ('INT64_MIN', 'INT64_MAX')}
 UNSIGNED = {'uint8_t': 'UINT8_MAX', 'uint16_t': 'UINT16_MAX', 'uint32_t': 'UINT32_MAX', 'uint64_t': 'UINT64_MAX'}
 def rules(lo, hi):
-    return [(r'storage_kind\(\)', 'vx_kind', 1), (r'json_storage_kind::(\w+)', r'json_storage_kind_\1', 4), (r'as_integer<int64_t>\(\)', 'vx_i64', 1, 3), (r'as_integer<uint64_t>\(\)', 'vx_u64', 1, 2),
+    return [(r'storage_kind\(\)', 'vx_kind', 1), (r'json_storage_kind::(\w+)', r'json_storage_kind_\1', 4), (r'as_integer<int64_t>\(\)', 'vx_i64', 0, 4), (r'as_integer<uint64_t>\(\)', 'vx_u64', 0, 4),
             (r'\(ext_traits::integer_limits<(?:T|IntegerType)>::lowest\)\(\)', '((int64_t)%s)' % lo, 0, 1), (r'\(ext_traits::integer_limits<(?:T|IntegerType)>::max\)\(\)', '(%s)' % hi, 2, 3),
             (r'cast<(?:const_)?json_ref_storage>\(\)\.value\(\)\.template is_integer<(?:T|IntegerType)>\(\)', 'vx_ref_is_integer()', 2)]
 FNS = []
